@@ -129,6 +129,15 @@ CLAIMED = {
             "caller. communicate() does not service a piped stderr: children writing more than a pipe-full to stderr "
             "are not driven through communicate. Hangs are confirmed by an immediate re-run before being reported.",
             "DESIGN.md 3.15"),
+    "C19": ("TLA+ definition of the exception hierarchy, ExpectRaises and the relation macros (spec/Expect): TLC checks "
+            "the hierarchy is a partial order and soundness/completeness of the definition, and validates the recorded "
+            "outcome of every cell of the real helpers",
+            "Exhaustive over the property's finite quantifier: all 10 expected types x 12 behaviours of fn, and all seven "
+            "macros over every operand pair of six boundary sets (ints, strings, doubles/floats incl. NaN); TLC decides for "
+            "each call whether expectation_failed must be thrown and that it carries the call site's file, line and message.",
+            "Trusted: TLC; operands are identified by rank in a sorted boundary set; __LINE__ of each call site is "
+            "captured next to the call.",
+            "DESIGN.md 3.19"),
 }
 
 NOT_YET = "check not built yet in this round (planned: see DESIGN.md section 3)"
